@@ -755,7 +755,7 @@ static void run_acquisition(const struct acq_cfg* a, vrng* g, int acq_index, str
             violation("C06", "late-join-sees-earlier-acquisition", "%s: a client that first mapped after %s had returned was handed %zu frame(s) of the finished acquisition",
                       ctx, by_abort ? "abort" : "stop", g_ncl - before);
         else if (g_ncl != before)
-            violation("C06", "client-frames-after-stop", "%s: %zu frame(s) of this acquisition were delivered to the client after %s had returned", ctx,
+            violation(by_abort ? "C06,C07" : "C06", "client-frames-after-stop", "%s: %zu frame(s) of this acquisition were delivered to the client after %s had returned", ctx,
                       g_ncl - before, by_abort ? "abort" : "stop");
     }
     if (g_cl_errors) { violation("C06", "client-map-error", "%s: acquire_map_read/unmap_read returned an error %lu time(s)", ctx, g_cl_errors); g_cl_errors = 0; }
